@@ -25,3 +25,11 @@ func (s *ImmuStore) simTryIndexersMux() bool {
 	}
 	return false
 }
+
+func (s *ImmuStore) simTrySingleVLogMu() bool {
+	if s.singleVLogMu.TryLock() {
+		s.singleVLogMu.Unlock()
+		return true
+	}
+	return false
+}
